@@ -8,24 +8,31 @@
 (*  {"op":"adv","pre","post"}  R moved by a certificate handed in by the driver                  *)
 EXTENDS Pacemaker, Json, TLC
 Trace == ndJsonDeserialize("trace.ndjson")
-VARIABLES l, cfg, good, done
-vars == <<l, cfg, good, done>>
-Init == l = 0 /\ cfg = [n |-> 1, q |-> 1, agg |-> FALSE, self |-> 1] /\ good = <<>> /\ done = {}
+VARIABLES l, cfg, good, done, htc
+\* done: the certificates R assembled so far (view -> signers); htc: the highest view R holds a timeout certificate for (assembled
+\* or handed in).  A certificate R assembled earlier may leave it again (it travels in R's sync info), and R may use it later to
+\* leave the view it is for: neither is a new assembly.
+vars == <<l, cfg, good, done, htc>>
+Init == l = 0 /\ cfg = [n |-> 1, q |-> 1, agg |-> FALSE, self |-> 1] /\ good = <<>> /\ done = <<>> /\ htc = 0
 Line == Trace[l + 1]
 \* under the aggregate rule a timeout is correctly signed only if both signatures are
 Ok(x) == x.ok /\ (cfg.agg => x.msgok)
 Step ==
     /\ l < Len(Trace)
     /\ l' = l + 1
-    /\ CASE Line.op = "new" -> cfg' = [n |-> Line.n, q |-> Line.q, agg |-> Line.agg, self |-> Line.self] /\ good' = <<>> /\ done' = {}
+    /\ CASE Line.op = "new" -> cfg' = [n |-> Line.n, q |-> Line.q, agg |-> Line.agg, self |-> Line.self] /\ good' = <<>> /\ done' = <<>> /\ htc' = 0
          [] Line.op = "tmo" ->
               /\ cfg' = cfg
               /\ good' = DropBelow(IF Assembles(good, Line.pre.view, Line.from, Line.view, Ok(Line), cfg.q)
                                    THEN Put(good, Line.view, {})        \* consumed by the certificate
                                    ELSE AfterTimeout(good, Line.pre.view, Line.from, Line.view, Ok(Line)), Line.post.view)
-              /\ done' = IF Assembles(good, Line.pre.view, Line.from, Line.view, Ok(Line), cfg.q) THEN done \cup {Line.view} ELSE done
+              /\ LET asm == Assembles(good, Line.pre.view, Line.from, Line.view, Ok(Line), cfg.q)
+                     mine == {i \in 1..Len(Line.tcs) : Line.tcs[i].view = Line.view} IN
+                 /\ done' = IF asm /\ mine # {} /\ Line.view \notin DOMAIN done THEN Put(done, Line.view, ToSet(Line.tcs[CHOOSE i \in mine : TRUE].signers)) ELSE done
+                 /\ htc' = IF asm /\ Line.view > htc THEN Line.view ELSE htc
          [] Line.op = "adv" -> cfg' = cfg /\ good' = DropBelow(good, Line.post.view) /\ done' = done
-         [] OTHER -> UNCHANGED <<cfg, good, done>>
+                               /\ htc' = IF Line.post.view - 1 > htc THEN Line.post.view - 1 ELSE htc
+         [] OTHER -> UNCHANGED <<cfg, good, done, htc>>
 Spec == Init /\ [][Step]_vars
 
 TCViews(x) == {x.tcs[i].view : i \in 1..Len(x.tcs)}
@@ -33,17 +40,22 @@ PropertyStep ==
     (l < Len(Trace) /\ Line.op = "tmo") =>
     LET asm == Assembles(good, Line.pre.view, Line.from, Line.view, Ok(Line), cfg.q) IN
     \* exactly when: a certificate for Line.view leaves the replica at this step iff the quorum is reached now
-    /\ asm => Line.view \in TCViews(Line)
+    \* (if R's own timer expires while it already holds a certificate for its view, it leaves the view on that certificate first
+    \*  and a second certificate for the view it just left goes nowhere)
+    /\ asm => (Line.view \in TCViews(Line) \/ (Line.local /\ htc >= Line.pre.view))
     /\ \A i \in 1..Len(Line.tcs) :
-          /\ Line.tcs[i].view = Line.view /\ asm                                   \* only at that step, only for that view
-          /\ ToSet(Line.tcs[i].signers) \subseteq (Get(good, Line.view) \cup {Line.from})    \* built from those messages only
+          LET fresh == /\ Line.tcs[i].view = Line.view /\ asm                                   \* assembled at this step, for that view,
+                       /\ ToSet(Line.tcs[i].signers) \subseteq (Get(good, Line.view) \cup {Line.from})    \* from those messages only
+              resent == /\ Line.tcs[i].view \in DOMAIN done                                      \* or the one it assembled earlier
+                        /\ ToSet(Line.tcs[i].signers) = done[Line.tcs[i].view] IN
+          /\ fresh \/ resent
           /\ Cardinality(ToSet(Line.tcs[i].signers)) >= cfg.q
           /\ Line.tcs[i].valid                                                    \* verifies at every other replica
-          /\ cfg.agg => (Line.tcs[i].aggView = Line.view /\ Line.tcs[i].aggValid)   \* and so does the aggregate certificate
+          /\ (cfg.agg /\ ~resent) => (Line.tcs[i].aggView = Line.view /\ Line.tcs[i].aggValid)   \* and so does the aggregate certificate
     \* a replica still in the timed-out view moves on to the next one
     /\ (asm /\ Line.pre.view = Line.view) => Line.post.view = Line.view + 1
-    \* timeout traffic alone never moves it otherwise
-    /\ ~asm => Line.post.view = Line.pre.view
+    \* timeout traffic alone never moves it otherwise -- except by a certificate it already holds for its current (or a later) view
+    /\ ~asm => (Line.post.view = Line.pre.view \/ (Line.post.view = Line.pre.view + 1 /\ htc >= Line.pre.view))
 ConformStep ==
     (l < Len(Trace) /\ Line.op = "tmo") =>
     /\ Line.post.bag = (IF Ok(Line) THEN BagAfter(Line.pre.bag, Line.from, Line.view, cfg.q, Line.pre.view) ELSE SelectSeq(Line.pre.bag, LAMBDA x : x[2] >= Line.pre.view))
